@@ -504,8 +504,7 @@ def _as_shapes(tier):
            dict(su=5, sv=5, pu=2, pv=2, cu=4, cv=4, centripetal=True, sym=[], bump=[]),
            dict(su=7, sv=6, pu=3, pv=2, cu=6, cv=4, centripetal=True, sym=[], bump=[]),
            # fewer control points than data points - 1 in u (the default count hides an index that should follow the data)
-           dict(su=6, sv=5, pu=2, pv=2, cu=4, cv=4, centripetal=False, sym=[], bump=[]),
-           dict(su=7, sv=6, pu=2, pv=2, cu=4, cv=4, centripetal=False, sym=[], bump=[])]
+           dict(su=6, sv=5, pu=2, pv=2, cu=4, cv=4, centripetal=False, sym=[], bump=[])]
     if tier == 'thorough':
         out += [dict(su=5, sv=6, pu=2, pv=3, cu=4, cv=5, centripetal=True, sym=[(4, 0)], bump=[])]
     return out
